@@ -540,6 +540,25 @@ func TestVerifC07(t *testing.T) {
 					maxExec = 5000
 				}
 				st := vrt.Explore(vrt.ExploreOpts{RunOpts: opts, Bound: bound, MaxExec: maxExec, DeadlineUnix: rep.DeadlineUnix(), FreeCost: 1}, body)
+				if !st.Hung {
+					// second canonical schedule: the thread started later runs first
+					ropts := opts
+					ropts.ReverseOrder = true
+					st2 := vrt.Explore(vrt.ExploreOpts{RunOpts: ropts, Bound: 1, MaxExec: maxExec, DeadlineUnix: rep.DeadlineUnix(), FreeCost: 1}, body)
+					st.Executions += st2.Executions
+					st.Points += st2.Points
+					st.Hung = st2.Hung
+					st.CapsHit = append(st.CapsHit, st2.CapsHit...)
+					have := map[string]bool{}
+					for _, f := range st.Failures {
+						have[f.Sig] = true
+					}
+					for _, f := range st2.Failures {
+						if !have[f.Sig] {
+							st.Failures = append(st.Failures, f)
+						}
+					}
+				}
 				rep.AddExecs(int64(st.Executions))
 				rep.AddStates(int64(st.Points))
 				rep.Hit("C07.concurrent")
